@@ -214,6 +214,7 @@ def check(case, mon, ctx):
         else:
             aligned_flags[l['id']] = False
     root = ET.fromstring(x.encode('utf-8'))
+    mon.observe('exported words and confidences', [(s_.get('CONTENT'), s_.get('WC'), s_.get('HPOS'), s_.get('WIDTH')) for s_ in root.iter(NS + 'String')])
     page = next(root.iter(NS + 'Page'))
     blocks = list(root.iter(NS + 'TextBlock'))
     if [tb.get('ID') for tb in blocks] != ['block_' + b['id'] for b in case['blocks']]:
